@@ -230,7 +230,7 @@ def one_pipeline(ctx, hist, st, req, fs, selftest, naming="plain"):
         return True
     # C->S: the whole recorded execution must be a behaviour of ControlPlane
     trace = s["trace"]
-    r = validate_trace(ctx, trace, "recorded trace")
+    r = validate_trace(ctx, trace, "recorded trace", split=("split" in naming))
     if r is None:
         return False
     ctx.log("trace validation: %d events, %d states, %s, %.0fs" % (s["events"], r.distinct, "accepted" if r.ok else "REJECTED (%s)" % r.violated, r.wall))
